@@ -428,58 +428,128 @@ theorem addr_checksum_counterexample (ck : Bytes → Bytes) :
 
 /-! ## `MethodSignature` -/
 
-/- Full statement wanted by the property:
+/-- what the text of an accepted signature looks like: non-empty, none of the four refused characters -/
+theorem mkMethod_ok {sig s : String} (h : mkMethod sig = .ok s) :
+    s = sig ∧ sig.toList ≠ [] ∧ ∀ c ∈ sig.toList, c ≠ '"' ∧ c ≠ '\\' ∧ c ≠ '\n' ∧ c ≠ '\r' := by
+  unfold mkMethod at h
+  split at h
+  · cases h
+  · next hne =>
+    split at h
+    · cases h
+    · next hbad =>
+      injection h with h
+      refine ⟨h.symm, by simpa using hne, ?_⟩
+      intro c hc
+      have := hbad
+      simp only [List.any_eq_true, not_exists, not_and, Bool.not_eq_true] at this
+      have hc' := this c hc
+      simp only [methodBadChar, Bool.or_eq_false_iff, decide_eq_false_iff_not] at hc'
+      exact ⟨hc'.1.1.1, hc'.1.1.2, hc'.1.2, hc'.2⟩
 
-      ∀ sig ≠ "", ∀ sel, parseInstr [(strBytes sig, sel)] (tokenise (methodLine sig)) = .ok (.pushBytes sel)
-
-  (the `method` line denotes the selector of the text the user wrote).  False: the text is put
-  between quotes without any escaping, see the two counterexamples below. -/
-
-/-- Strongest true restriction: a signature without `"` and `\` (all real ABI signatures) is
-    emitted as two tokens, the quoted token is a string literal for exactly the UTF-8 bytes of the
-    signature, and the instruction pushes the selector registered for that text; without a raw
-    newline in the signature there is none in the line. -/
-theorem methodsig_partial (sels : List (Bytes × Bytes)) (sig : String) (sel : Bytes)
-    (h : ∀ c ∈ sig.toList, c ≠ '"' ∧ c ≠ '\\') :
-    tokenise (methodLine sig) = ["method", "\"" ++ sig ++ "\""] ∧
+/-- **methodsig_correct.**  Every text `MethodSignature` ACCEPTS is emitted as one line
+    `method "<text>"` that is exactly two tokens of the TEAL grammar and one statement, contains no line
+    break (`\n`, `\r`); its single argument is a string literal that the grammar
+    (`Avm.parseStringLiteral`) decodes to exactly the UTF-8 bytes of the text; hence the `method`
+    instruction denotes the selector registered for that very text (`sel` stands for the first four
+    bytes of SHA-512/256 of it, which Lean does not interpret).
+    (Before repair 3567bd6 of `pyteal/ast/methodsig.py` every non-empty text was accepted and this was
+    false: see the `…_regression` theorems below.) -/
+theorem methodsig_correct (sels : List (Bytes × Bytes)) (sig s : String) (sel : Bytes)
+    (h : mkMethod sig = .ok s) :
+    s = sig ∧
+    tokenise (methodLine s) = ["method", "\"" ++ sig ++ "\""] ∧
+    splitStatements (tokenise (methodLine s)) = [["method", "\"" ++ sig ++ "\""]] ∧
     parseStringLiteral ("\"" ++ sig ++ "\"") = some (strBytes sig) ∧
-    parseInstr ((strBytes sig, sel) :: sels) (tokenise (methodLine sig)) = .ok (.pushBytes sel) ∧
-    ('\n' ∉ sig.toList → '\n' ∉ (methodLine sig).toList) := by
-  have htok : tokenise (methodLine sig) = ["method", "\"" ++ sig ++ "\""] := by
-    have := tokenise_op_quoted ['m', 'e', 't', 'h', 'o', 'd'] (by simp [okChar]) (by simp) sig.toList h
-    have e : methodLine sig
-        = String.ofList (['m', 'e', 't', 'h', 'o', 'd'] ++ ' ' :: '"' :: (sig.toList ++ ['"'])) := by
+    parseInstr ((strBytes sig, sel) :: sels) (tokenise (methodLine s)) = .ok (.pushBytes sel) ∧
+    '\n' ∉ (methodLine s).toList ∧ '\r' ∉ (methodLine s).toList := by
+  obtain ⟨rfl, _, hch⟩ := mkMethod_ok h
+  have hq : ∀ c ∈ s.toList, c ≠ '"' ∧ c ≠ '\\' := fun c hc => ⟨(hch c hc).1, (hch c hc).2.1⟩
+  have htok : tokenise (methodLine s) = ["method", "\"" ++ s ++ "\""] := by
+    have := tokenise_op_quoted ['m', 'e', 't', 'h', 'o', 'd'] (by simp [okChar]) (by simp) s.toList hq
+    have e : methodLine s
+        = String.ofList (['m', 'e', 't', 'h', 'o', 'd'] ++ ' ' :: '"' :: (s.toList ++ ['"'])) := by
       apply String.toList_inj.mp; simp [methodLine]
-    have e2 : "\"" ++ sig ++ "\"" = String.ofList ('"' :: (sig.toList ++ ['"'])) := by
+    have e2 : "\"" ++ s ++ "\"" = String.ofList ('"' :: (s.toList ++ ['"'])) := by
       apply String.toList_inj.mp; simp
     rw [e, this, e2]
-  have hlit : parseStringLiteral ("\"" ++ sig ++ "\"") = some (strBytes sig) := by
+  have hlit : parseStringLiteral ("\"" ++ s ++ "\"") = some (strBytes s) := by
     simp only [parseStringLiteral, String.toList_append]
     have : ("\"" : String).toList = ['"'] := by simp
     rw [this]
     simp only [List.cons_append, List.nil_append]
-    rw [pgo_plains _ h, strBytes, toUTF8_toList]; simp
-  refine ⟨htok, hlit, ?_, ?_⟩
+    rw [pgo_plains _ hq, strBytes, toUTF8_toList]; simp
+  refine ⟨rfl, htok, ?_, hlit, ?_, ?_, ?_⟩
+  · rw [htok]
+    have h1 : "\"" ++ s ++ "\"" ≠ ";" := by
+      intro h
+      have := congrArg String.toList h
+      simp at this
+    simp [splitStatements, splitStatements.go, h1]
   · rw [htok]; exact parseInstr_method _ _ _ _ hlit
-  · intro hn; simp [methodLine, hn]
+  · have : '\n' ∉ s.toList := fun hm => (hch _ hm).2.2.1 rfl
+    simp [methodLine, this]
+  · have : '\r' ∉ s.toList := fun hm => (hch _ hm).2.2.2 rfl
+    simp [methodLine, this]
 
-/-- `MethodSignature('a"b()void')` is accepted and emitted as `method "a"b()void"`, which is not a
-    string literal of the grammar: the line does not denote the selector (it does not assemble). -/
-theorem methodsig_quote_counterexample :
-    mkMethod "a\"b()void" = .ok "a\"b()void" ∧
+/-- **methodsig_rejects.**  `MethodSignature` raises `TealInputError` exactly for the empty text and for
+    the texts that contain a double quote, a backslash, a line feed or a carriage return — the texts
+    that cannot stand verbatim between double quotes on one line. -/
+theorem methodsig_rejects (sig : String) :
+    (∃ e, mkMethod sig = .error e) ↔
+      (sig.toList = [] ∨ ∃ c ∈ sig.toList, c = '"' ∨ c = '\\' ∨ c = '\n' ∨ c = '\r') := by
+  constructor
+  · rintro ⟨e, he⟩
+    unfold mkMethod at he
+    split at he
+    · next h0 => exact Or.inl (by simpa using h0)
+    · split at he
+      · next hb =>
+        right
+        obtain ⟨c, hc, hbad⟩ := List.any_eq_true.mp hb
+        refine ⟨c, hc, ?_⟩
+        simpa [methodBadChar, or_assoc] using hbad
+      · cases he
+  · intro h
+    cases hm : mkMethod sig with
+    | error e => exact ⟨e, rfl⟩
+    | ok s =>
+      obtain ⟨_, hne, hch⟩ := mkMethod_ok hm
+      rcases h with h | ⟨c, hc, hbad⟩
+      · exact absurd h hne
+      · obtain ⟨h1, h2, h3, h4⟩ := hch c hc
+        rcases hbad with e | e | e | e <;> contradiction
+
+/-- in particular: a text with one of the four characters is never accepted -/
+theorem methodsig_bad_char_rejected (sig : String) (c : Char) (hc : c ∈ sig.toList)
+    (hbad : c = '"' ∨ c = '\\' ∨ c = '\n' ∨ c = '\r') : ∃ e, mkMethod sig = .error e :=
+  (methodsig_rejects sig).mpr (Or.inr ⟨c, hc, hbad⟩)
+
+/-! ### regression examples: the inputs of the retired finding `methodsig-unescaped`
+
+  Before commit 3567bd6 `MethodSignature` accepted every non-empty text.  The three theorems below
+  keep the old failing inputs: each is now rejected, and each records what the verbatim line
+  `method "<text>"` would mean under the grammar (why it must not be emitted). -/
+
+/-- `MethodSignature('a"b()void')` is rejected; the line `method "a"b()void"` that used to be emitted is not
+    a string literal of the grammar (it does not assemble). -/
+theorem methodsig_quote_regression :
+    (∃ e, mkMethod "a\"b()void" = .error e) ∧
+    tokenise (methodLine "a\"b()void") = ["method", "\"a\"b()void\""] ∧
+    parseStringLiteral "\"a\"b()void\"" = none ∧
     ∀ sel, parseInstr [(strBytes "a\"b()void", sel)] (tokenise (methodLine "a\"b()void"))
       ≠ .ok (.pushBytes sel) := by
-  refine ⟨by simp [mkMethod], ?_⟩
-  intro sel
   have ht : tokenise (methodLine "a\"b()void") = ["method", "\"a\"b()void\""] := by decide
   have hp : parseStringLiteral "\"a\"b()void\"" = none := by decide
+  refine ⟨methodsig_bad_char_rejected _ '"' (by decide) (Or.inl rfl), ht, hp, ?_⟩
+  intro sel
   rw [ht]
   simp [parseInstr, hp]
 
-/-- `MethodSignature('a\\x41()void')` is accepted and emitted as `method "a\x41()void"`; the grammar
-    reads the escape, so the line denotes the selector of a *different* signature, `aA()void`. -/
-theorem methodsig_backslash_counterexample (sel : Bytes) :
-    mkMethod "a\\x41()void" = .ok "a\\x41()void" ∧
+/-- `MethodSignature('a\\x41()void')` is rejected; in the line `method "a\x41()void"` that used to be emitted
+    the grammar reads the escape, so it denoted the selector of a *different* signature, `aA()void`. -/
+theorem methodsig_backslash_regression (sel : Bytes) :
+    (∃ e, mkMethod "a\\x41()void" = .error e) ∧
     tokenise (methodLine "a\\x41()void") = ["method", "\"a\\x41()void\""] ∧
     parseStringLiteral "\"a\\x41()void\"" = some (strBytes "aA()void") ∧
     parseInstr [(strBytes "aA()void", sel)] (tokenise (methodLine "a\\x41()void"))
@@ -489,8 +559,16 @@ theorem methodsig_backslash_counterexample (sel : Bytes) :
     have tb : ∀ s : String, s.toByteArray.toList = s.toList.flatMap String.utf8EncodeChar :=
       toUTF8_toList
     simp [parseStringLiteral, parseStringLiteral.go, strBytes, hexVal, tb, String.utf8EncodeChar]
-  refine ⟨by simp [mkMethod], ht, hp, ?_⟩
+  refine ⟨methodsig_bad_char_rejected _ '\\' (by decide) (Or.inr (Or.inl rfl)), ht, hp, ?_⟩
   rw [ht]; exact parseInstr_method _ _ _ _ hp
+
+/-- `MethodSignature('a()void\nint 0')` and `MethodSignature('a\rb()void')` are rejected; the first used to
+    put a line feed into the program text (a second instruction `int 0"`) -/
+theorem methodsig_linebreak_regression :
+    (∃ e, mkMethod "a()void\nint 0" = .error e) ∧ '\n' ∈ (methodLine "a()void\nint 0").toList ∧
+    (∃ e, mkMethod "a\rb()void" = .error e) :=
+  ⟨methodsig_bad_char_rejected _ '\n' (by decide) (Or.inr (Or.inr (Or.inl rfl))), by decide,
+   methodsig_bad_char_rejected _ '\r' (by decide) (Or.inr (Or.inr (Or.inr rfl)))⟩
 
 
 /-! ## non-vacuity: the hypotheses above are satisfiable by non-trivial inputs -/
@@ -508,6 +586,14 @@ example : validBase16 (strip0x ['0', 'x', '0', 'x', '1', '2']) = false := by dec
 example : mkInt (2 ^ 64 - 1) = .ok 18446744073709551615 := by simp [mkInt]
 example : mkAddr addrZero = .ok addrZero := by
   unfold mkAddr addrZero; rw [String.toList_ofList, if_pos (by decide)]
-example : ∀ c ∈ "add(uint64,uint64)uint64".toList, c ≠ '"' ∧ c ≠ '\\' := by decide
+-- the hypothesis of `methodsig_correct` is met by a real ABI signature and by odd but acceptable texts
+example : mkMethod "add(uint64,uint64)uint64" = .ok "add(uint64,uint64)uint64" := by
+  unfold mkMethod; rw [if_neg (by decide), if_neg (by decide)]
+example : mkMethod "a b()void; // é" = .ok "a b()void; // é" := by
+  unfold mkMethod; rw [if_neg (by decide), if_neg (by decide)]
+example (sel : Bytes) : parseInstr [(strBytes "a b()void; // é", sel)] (tokenise (methodLine "a b()void; // é"))
+    = .ok (.pushBytes sel) :=
+  (methodsig_correct [] "a b()void; // é" _ sel
+    (by unfold mkMethod; rw [if_neg (by decide), if_neg (by decide)])).2.2.2.2.1
 
 end PyTealV.Proofs.C13
